@@ -9,7 +9,7 @@
     fuel_irrelevant_impl fuel_irrelevant_doc impl_eq_doc no_output_when_doc_fails no_output_when_impl_fails impl_fails_when_doc_fails
     failing_renders_agree
     if_false_removes if_true_transparent for_eq_unrolled choose_first_match_only
-    attr_form_eq_elem_form_ctl replace_eq_content_strip_partial
+    attr_form_eq_elem_form_ctl replace_eq_content_strip_ctl replace_eq_content_strip
     macro_representation_irrelevant attr_form_eq_elem_form replace_refines_content_strip_attrs
     extract_flat_eq_tree construction_pipeline_eq_compile text_parse_eq_tree text_pipeline_eq_compile
     direlem_attrs_witness
@@ -424,16 +424,10 @@ theorem attr_form_eq_elem_form (pre stay : List Dir) (tag : Name) (attrs : List 
   · intro h
     exact nest_of_chain hpre (IOk.mkSub_iff.1 h) hr
 
-/-
-  Full statement (kept visible): with any further directives on the element.
-  Proved with control directives (when/otherwise/for/if/choose/with) before it; excluded:
-  `py:def` before it (would need the replace/content+strip pair as a further generator of the
-  macro relation of `macro_representation_irrelevant`) and `py:attrs` on the same
-  element (content+strip evaluates its expression, replace does not: the outputs agree
-  whenever that evaluation succeeds — exercised by the oracle, not proved).
--/
-/-- `py:replace` = `py:content` + `py:strip`. -/
-theorem replace_eq_content_strip_partial (pre : List Dir) (x : XExpr) (tag : Name)
+/-- `py:replace` = `py:content` + `py:strip`, with control directives before it: same output and
+    the identical state (iff).  With `py:def` among them: `replace_eq_content_strip`; with
+    `py:attrs` on the element the two are not equivalent: `replace_refines_content_strip_attrs`. -/
+theorem replace_eq_content_strip_ctl (pre : List Dir) (x : XExpr) (tag : Name)
     (attrs : List (Name × Str)) (kids : List TNode) (hpre : ∀ d ∈ pre, d.ctl = true)
     (hs1 : StrictSorted (pre ++ [.replace x])) (hs2 : StrictSorted (pre ++ [.content x, .strip none]))
     (st st' : St) (o : List Event) :
@@ -466,6 +460,30 @@ theorem direlem_attrs_witness :
       = some [tx ['x']] ∧
     docRender 50 direlemDoc [] = .ok [startEv ['b'] [], tx ['x'], endEv ['b']] := by
   constructor <;> rfl
+
+/-- **`py:replace` = `py:content` + `py:strip`** after any of def/when/otherwise/for/if/choose/with
+    on the same element: from related states (in particular the same state) both render the same
+    output and end in related, i.e. indistinguishable, states (a `py:def` among the directives
+    stores the macro in the two forms; `macro_representation_irrelevant`). -/
+theorem replace_eq_content_strip (pre : List Dir) (x : XExpr) (tag : Name) (attrs : List (Name × Str))
+    (kids : List TNode) (hpre : ∀ d ∈ pre, d.ctlDef = true)
+    (hs1 : StrictSorted (pre ++ [.replace x])) (hs2 : StrictSorted (pre ++ [.content x, .strip none]))
+    (st st' : St) (hr : StRel st st') (o : List Event) (s1 : St) :
+    (IOk (.flat (compileNode (.elem tag attrs (pre ++ [.replace x]) kids))) st o s1 →
+      ∃ s1', IOk (.flat (compileNode (.elem tag attrs (pre ++ [.content x, .strip none]) kids))) st' o s1' ∧
+        StRel s1 s1') ∧
+    (IOk (.flat (compileNode (.elem tag attrs (pre ++ [.content x, .strip none]) kids))) st o s1 →
+      ∃ s1', IOk (.flat (compileNode (.elem tag attrs (pre ++ [.replace x]) kids))) st' o s1' ∧
+        StRel s1 s1') := by
+  simp only [compileNode, sortBy_implIdx_of_sorted _ hs1, sortBy_implIdx_of_sorted _ hs2,
+    attach_ctlDef_prefix pre hpre, attach, getLast_body, IOk.mkSub_iff]
+  constructor
+  · intro h
+    exact tail_pair (T1 := ([], [.xexpr x])) (T2 := ([.strip none], [.start tag attrs, .xexpr x, .end_ tag]))
+      hpre (BasePair.repl x tag attrs) h hr
+  · intro h
+    exact tail_pair (T1 := ([.strip none], [.start tag attrs, .xexpr x, .end_ tag])) (T2 := ([], [.xexpr x]))
+      hpre (BasePair.unrepl x tag attrs) h hr
 
 /-- With `py:attrs` on the same element the two are not equivalent (content + strip keeps the
     element alive for `py:attrs`, whose expression may fail; `py:replace` never evaluates it), but
